@@ -109,6 +109,13 @@ CLAIMED["C06"] = dict(
     design_ref="§5 C06",
 )
 
+CLAIMED["C07"] = dict(
+    category="exploration",
+    technique="bounded-exhaustive enumeration of all hydrocarbon pairs x (T, x) lattice x pressures on both sides of and inside the envelope, pure-fluid density grids; tangent plane distance recomputed from fugacity coefficients",
+    text="For every pair of the C05 success domain states 2 % outside the envelope and every phase delivered by converged bubble, dew and flash calculations must be reported stable, feeds inside the envelope unstable and leading tp_flash to a split; every trial phase returned anywhere has its tangent plane distance recomputed from ln_phi and must be negative and share T, p with the analysed state; pure states on a 24-point density grid across the binodal are classified with the saturated densities. Converged phases that are reported unstable at noise level on the pinned tree are listed per input.",
+    design_ref="§5 C07",
+)
+
 NOT_YET = "check not built yet (work in progress; see DESIGN.md §9 build order) - not a claim that the technique cannot apply"
 
 ALL = ["C%02d" % i for i in range(1, 21)]
